@@ -1490,6 +1490,7 @@ static ares_ssize_t v_sendto(ares_socket_t fd, const void *buffer,
     errno = EBADF;
     return -1;
   }
+  qstate_dump();
   a[0] = 0;
   if (address != NULL) {
     strcpy(a, " to=");
